@@ -43,10 +43,16 @@ def _hook(event, args):
 
 
 class FaultyFile:
-    """write-mode file whose k-th write() raises"""
+    """write-mode file whose k-th write() raises, or whose buffered data are lost
+    when it is closed (the deferred ENOSPC / EIO of a flush): close() - called
+    explicitly or by a with block - then raises; a file that is never closed
+    explicitly loses its data silently, as the interpreter's finalizer would
+    discard the error"""
 
-    def __init__(self, f):
+    def __init__(self, f, idx):
         object.__setattr__(self, '_f', f)
+        object.__setattr__(self, '_idx', idx)
+        object.__setattr__(self, '_closed', False)
 
     def write(self, data):
         ST['wcount'] += 1
@@ -54,15 +60,41 @@ class FaultyFile:
             raise OSError(5, 'Input/output error (injected fault)')
         return self._f.write(data)
 
+    def _lose(self):
+        try:
+            self._f.flush()
+            self._f.truncate(0)
+        except (OSError, ValueError):
+            pass
+
+    def close(self):
+        if self._closed:
+            return
+        object.__setattr__(self, '_closed', True)
+        if ST.get('cfault_at') == self._idx:
+            self._lose()
+            self._f.close()
+            raise OSError(28, 'No space left on device (injected fault at close)')
+        self._f.close()
+
+    def __del__(self):
+        try:
+            if not self._closed and ST.get('cfault_at') == self._idx:
+                self._lose()
+                ST['swallowed'] = getattr(self._f, 'name', '?')
+            self._f.close()
+        except Exception:
+            pass
+
     def __getattr__(self, name):
         return getattr(self._f, name)
 
     def __enter__(self):
-        self._f.__enter__()
         return self
 
     def __exit__(self, *a):
-        return self._f.__exit__(*a)
+        self.close()
+        return False
 
     def __iter__(self):
         return iter(self._f)
@@ -74,15 +106,17 @@ _real_open = builtins.open
 def _open(file, mode='r', *a, **k):
     f = _real_open(file, mode, *a, **k)
     if ST['on'] and isinstance(mode, str) and any(c in mode for c in 'wax+'):
-        return FaultyFile(f)
+        ST['ocount'] = ST.get('ocount', 0) + 1
+        return FaultyFile(f, ST['ocount'])
     return f
 
 
-def observe(fn, fault_at=None, wfault_at=None):
+def observe(fn, fault_at=None, wfault_at=None, cfault_at=None):
     if not ST['installed']:
         sys.addaudithook(_hook)
         ST['installed'] = True
-    ST.update(on=True, events=[], fault_at=fault_at, count=0, wfault_at=wfault_at, wcount=0)
+    ST.update(on=True, events=[], fault_at=fault_at, count=0, wfault_at=wfault_at, wcount=0, cfault_at=cfault_at, ocount=0,
+              swallowed=None)
     builtins.open = _open
     buf = io.StringIO()
     try:
@@ -90,6 +124,8 @@ def observe(fn, fault_at=None, wfault_at=None):
             res = core.outcome(fn)
     finally:
         builtins.open = _real_open
+        import gc
+        gc.collect()
         ST['on'] = False
     return res, list(ST['events']), ST['count'], ST['wcount']
 
@@ -336,24 +372,29 @@ def run_case(seed):
             if must_raise or not allowed:
                 continue
             # faults at write-class operations and at write() calls
+            NO = ST.get('ocount', 0)
             ks = list(range(1, W + 1))
             ws = list(range(1, NW + 1))
+            cs = list(range(1, NO + 1))
             if not thorough:
                 ks = sorted(set(rng.sample(ks, min(len(ks), 5)) + ks[:1] + ks[-1:]))
                 ws = sorted(set(rng.sample(ws, min(len(ws), 4)) + ws[:1] + ws[-1:])) if ws else []
-            for kind, positions in (('event', ks), ('write', ws)):
+                cs = sorted(set(rng.sample(cs, min(len(cs), 4)) + cs[:1] + cs[-1:])) if cs else []
+            for kind, positions in (('event', ks), ('write', ws), ('close', cs)):
                 for k in positions:
                     for a in allowed:
                         if os.path.exists(a):
                             shutil.rmtree(a, ignore_errors=True) if os.path.isdir(a) else os.remove(a)
-                    res2, ev2, _, _ = observe(run, fault_at=k if kind == 'event' else None, wfault_at=k if kind == 'write' else None)
+                    res2, ev2, _, _ = observe(run, fault_at=k if kind == 'event' else None, wfault_at=k if kind == 'write' else None,
+                                              cfault_at=k if kind == 'close' else None)
                     out['evals'] += 1
                     count(f"fault={kind}")
                     bad = check_common(f" with a fault at {kind} {k}", res2, ev2)
                     if not bad and res2[0] == 'ok' and {a: tree_digest(a) for a in allowed} != clean_out:
                         # (a normal return with the complete, correct output means the library retried and recovered)
-                        bad = (f"{name}: an I/O error at {kind} {k} of {W if kind == 'event' else NW} was swallowed: the tool returned "
-                               f"normally with an incomplete or different output")
+                        bad = (f"{name}: an I/O error at {kind} {k} of {dict(event=W, write=NW, close=NO)[kind]} was swallowed: the tool returned "
+                               f"normally with an incomplete or different output"
+                               + (f" (the file {ST['swallowed']} was never closed explicitly)" if ST.get('swallowed') else ''))
                     if bad:
                         out['violations'].append(dict(desc, kind='fault-mishandled', fault=[kind, k], what=bad))
                         break
